@@ -43,8 +43,11 @@ PROPS = {
     "C06": {"jobs": [rapid("TestC06", 1200, 8000), rapid("TestC06Engine", 4000, 30000), enum("TestC06Reuse"), enum("TestC06AllTTLs"), enum("TestC06UDP6ChecksumSearch"), rapid("TestC06Concurrent", 600, 4000)]},
     "C20": {"jobs": [enum("TestC20Table"), rapid("TestC20", 2000, 2000), enum("TestC20ConnectTimeout")]},
     "C11": {"jobs": [rapid("TestC11", 800, 4000), rapid("TestC11Request", 800, 3000), rapid("TestC11Alloc", 500, 3000), enum("TestC11EchoIDs"), enum("TestC11EchoIDsConcurrent")]},
-    "C12": {"jobs": [enum("TestC12Classes"), rapid("TestC12Random", 20000, 300000), rapid("TestC12EndToEnd", 1500, 10000)]},
-    "C13": {"jobs": [{"kind": "script", "name": "C13Kernel", "run": "C13Kernel", "cmd": ["python3", "c13_kernel.py"], "timeout_quick": 600, "timeout_thorough": 2400},
+    "C12": {"jobs": [enum("TestC12Classes"),
+                     # the drop-all / drain / attach sequence on a real AF_PACKET handle in a private network namespace
+                     enum("TestC12KernelAttach"), rapid("TestC12Random", 20000, 300000), rapid("TestC12EndToEnd", 1500, 10000)]},
+    "C13": {"jobs": [enum("TestC13KernelSink"),
+                     {"kind": "script", "name": "C13Kernel", "run": "C13Kernel", "cmd": ["python3", "c13_kernel.py"], "timeout_quick": 600, "timeout_thorough": 2400},
                      # "several traceroutes running at once" on the real-socket path: a wrong result there needs an
                      # interleaving of microseconds (two runs attaching their filters at the same moment), which the
                      # topology oracle meets only by luck; the race detector reports the unsynchronised access itself
